@@ -53,9 +53,9 @@ extern "C" void model_copyVec(L1Vec& dst, const L1Vec& src) { dst(0) = 0; }     
 static const void* clipSrc[2]; static S8* clipDst[2]; static int nclip;
 extern "C" void model_scaleClipPack(S8* out, const L1Vec& in) { if (nclip < 2) { clipDst[nclip] = out; clipSrc[nclip] = &in; } nclip++; }
 
-alignas(64) static unsigned char nnmem[sizeof(NNEvaluator)];
+static RawBox<NNEvaluator> nnBox;
 alignas(64) static unsigned char netmem[64];   // never read: the kernels that would read the network are modelled (only addresses are formed)
-static NNEvaluator& rawNN() { return *reinterpret_cast<NNEvaluator*>(nnmem); }
+static NNEvaluator& rawNN() { return nnBox.obj; }
 typedef NNEvaluator::FirstLayerState FLS;
 
 // multiplicity of row f among the features of board b seen from perspective c with the king on kSq
